@@ -1,0 +1,45 @@
+//go:build verif
+
+package cbor
+
+// Contracts for /verif (contract-based deductive verification). Comment-only.
+
+// RFC 8949 item-header grammar as defined spec functions over bytes.
+//@ spec func cborAI(b uint8) uint8 = b & 31
+//@ spec func cborMajor(b uint8) uint8 = b & 224
+//@ spec func hdrLen(b uint8) int = ite(cborAI(b) < 24, int(1), ite(cborAI(b) == 24, int(2), ite(cborAI(b) == 25, int(3), ite(cborAI(b) == 26, int(5), ite(cborAI(b) == 27, int(9), int(1))))))
+//@ spec func hdrCount(data []byte, pos int) uint64 = ite(cborAI(data[pos]) < 24, uint64(cborAI(data[pos])),
+//@     ite(cborAI(data[pos]) == 24, uint64(data[pos+1]),
+//@     ite(cborAI(data[pos]) == 25, uint64(data[pos+1])<<8 | uint64(data[pos+2]),
+//@     ite(cborAI(data[pos]) == 26, uint64(data[pos+1])<<24 | uint64(data[pos+2])<<16 | uint64(data[pos+3])<<8 | uint64(data[pos+4]),
+//@         uint64(data[pos+1])<<56 | uint64(data[pos+2])<<48 | uint64(data[pos+3])<<40 | uint64(data[pos+4])<<32 |
+//@         uint64(data[pos+5])<<24 | uint64(data[pos+6])<<16 | uint64(data[pos+7])<<8 | uint64(data[pos+8])))))
+// a definite-length array header that lies completely inside data at pos
+//@ spec func defArrayAt(data []byte, pos int) bool = pos >= 0 && pos < len(data) && cborMajor(data[pos]) == 128 && cborAI(data[pos]) <= 27 && pos + hdrLen(data[pos]) <= len(data)
+
+// StreamDecoder: abstract position = consumed + the library decoder's read count.
+//@ func NewStreamDecoder(data) (r, err)
+//@   props C30
+//@   assigns nothing
+//@   ensures succeeds: err == nil
+//@   ensures fresh: err == nil ==> r != nil && r.data == data && r.consumed == 0 && gf(r.dec, read) == 0 && r.dec != nil
+
+//@ func (d *StreamDecoder) Advance(n) (err)
+//@   props C30
+//@   let pos = d.consumed + gf(d.dec, read)
+//@   requires wf: d.consumed >= 0 && gf(d.dec, read) >= 0 && d.consumed <= len(d.data) && gf(d.dec, read) <= len(d.data) && pos <= len(d.data)
+//@   assigns d.consumed, d.dec
+//@   ensures ok: err == nil ==> n >= 0 && pos + n <= len(d.data) && d.consumed + gf(d.dec, read) == pos + n && d.consumed >= 0 && gf(d.dec, read) >= 0 && d.consumed <= len(d.data) && gf(d.dec, read) <= len(d.data)
+//@   ensures fail: err != nil ==> d.consumed == old(d.consumed) && d.dec == old(d.dec)
+//@   ensures total: n >= 0 && n <= len(d.data) - pos ==> err == nil
+
+//@ func (d *StreamDecoder) DecodeArrayHeader() (length, start, hlen, err)
+//@   props C30
+//@   let pos = d.consumed + gf(d.dec, read)
+//@   requires wf: d.consumed >= 0 && gf(d.dec, read) >= 0 && d.consumed <= len(d.data) && gf(d.dec, read) <= len(d.data) && pos <= len(d.data)
+//@   assigns d.consumed, d.dec
+//@   ensures kind: err == nil ==> defArrayAt(d.data, pos)
+//@   ensures vals: err == nil ==> start == pos && hlen == hdrLen(d.data[pos]) && uint64(length) == hdrCount(d.data, pos) && length >= 0
+//@   ensures pos: err == nil ==> d.consumed + gf(d.dec, read) == pos + hlen && d.consumed >= 0 && gf(d.dec, read) >= 0 && d.consumed <= len(d.data) && gf(d.dec, read) <= len(d.data)
+//@   ensures fail: err != nil ==> d.consumed == old(d.consumed) && d.dec == old(d.dec)
+//@   ensures total: defArrayAt(d.data, pos) && hdrCount(d.data, pos) <= 2147483647 ==> err == nil
